@@ -10,6 +10,7 @@ import DateutilVerif.Proofs.Calendar
 
 namespace PGen
 open PM Py
+set_option linter.unusedSimpArgs false
 
 theorem bind_ok {α β : Type} (v : α) (f : α → Py.R β) : Except.bind (Except.ok v : Py.R α) f = f v := rfl
 theorem bind_err {α β : Type} (e : Py.PyErr) (f : α → Py.R β) :
